@@ -16,7 +16,7 @@ RULE = ("(sim) Hypothesis generates session lists (both flags, maxNormalOrders 0
         "placement => no consultation / acceptance; no execution (as configured) => no fill whatever events exist; each normal "
         "agent consulted at most once, consultation stops right after maxNormalOrders producers and otherwise covers all; "
         "high-frequency consultations form groups after normal batches, each agent at most once per group, cap respected, "
-        "groups complete otherwise; rate 0 => none, rate 1 => one group per batch; execution session without halt rule => "
+        "groups complete otherwise; whatever a high-frequency agent returns is accepted before the next agent is consulted (the interleaving of the property's title); rate 0 => none, rate 1 => one group per batch; execution session without halt rule => "
         "the book of the order's market is not executable at the next observation point after every acceptance; consultation "
         "order not constant over >=30 full steps. Non-trivial = run whose sessions cover >=2 flag combinations, or with "
         "high-frequency groups and a binding cap. (order) 40-60 step runs with 3-5 never-capped normal agents: the consultation order must vary and every agent must come first at least once. (rate) long single-session runs at rate r in {0.2,0.5,0.8}: group "
